@@ -9,6 +9,7 @@ import Penguin.Lemmas.PairCor
 import Penguin.Lemmas.MuxEof
 import Penguin.Lemmas.MuxEofRead
 import Penguin.Lemmas.MuxEofConn
+import Penguin.Lemmas.PairAllRun
 
 namespace Penguin.C05
 open Penguin Penguin.Link
@@ -407,5 +408,109 @@ example : endsOf { opts := {} } (hA.take 2 ++ [.deliver (.msg (.frame (.finish 8
     .deliver (.msg (.frame (.acknowledge 7 1)))]) = [] := by decide
 
 end Endpoint
+
+/-! ### Two endpoints, EVERY history: a clean end-of-stream is exact (`Model/PairAll.lean`)
+
+`Penguin.PairAll` joins two endpoint models by FIFO wires at the stimulus level — every application call,
+delivery, Close and transport fault at either side (see Props C02,
+`pair_reads_are_prefix_of_peer_writes_every_history`).  `PairAll.opsB p l` is the list of endpoint stimuli
+(`Mux.Op`) a run `l` applies to the right endpoint, so that the right endpoint after the run IS
+`Mux.runOps` of that history and the end events of the run ARE the ghost `Mux.endsOf` of that history
+(`pair_run_is_a_history`); `opsA` likewise for the left endpoint. -/
+
+section PairAll
+open Penguin.Mux Penguin.PairAll
+
+/-- The endpoints of a run of the pair are the endpoint model after the histories `opsA` / `opsB` (the
+    stimuli the run applied to each side, deliveries with the messages the wires actually carried). -/
+theorem pair_run_is_a_history (p : PS) (l : List (PairAll.Side × Stim)) :
+    (PairAll.run p l).a = runOps p.a (opsA p l) ∧ (PairAll.run p l).b = runOps p.b (opsB p l) :=
+  ⟨(run_a_ops p l).1, (run_b_ops p l).1⟩
+
+/-- C05, "a read returns end-of-stream … only after every byte the peer wrote before that point has been
+    returned", at full strength for the orderly end.  In every reachable state of the pair (every history,
+    faults included, under `PairAll.Cfg`), for every flow id `x` and BOTH directions: if the next read through
+    a handle `h` of stream object `j` (carrying `x`; its receiver still open: the handle is alive and has
+    not consumed the end yet) returns end-of-stream, and the end cause recorded for `j` is `peerFinish x` — the
+    peer's `Finish` was processed for that object while it held the slot of `x` — then what the application
+    has read from `j` is EXACTLY what the peer's application successfully wrote on `x`: not merely a prefix,
+    nothing is missing, and nothing more will ever be written on `x`. -/
+theorem pair_clean_eof_is_exact_every_history {ra rb : List Nat} (c : Cfg ra rb) (oa ob : Opts)
+    (l : List (PairAll.Side × Stim)) (x : Nat) :
+    let p0 := PairAll.init oa ob ra rb
+    let p := PairAll.run p0 l
+    (∀ (j h n : Nat) (o : Obj), p.b.handles[h]? = some j → p.b.objs[j]? = some o → o.fid = x → o.rxOpen = true →
+      (appRead p.b h n).2 = .eof → endCause (endsOf p0.b (opsB p0 l)) j = some (.peerFinish x) →
+      chunks p.gb.returned j = wroteOn x p.ga.wrote) ∧
+    (∀ (i h n : Nat) (o : Obj), p.a.handles[h]? = some i → p.a.objs[i]? = some o → o.fid = x → o.rxOpen = true →
+      (appRead p.a h n).2 = .eof → endCause (endsOf p0.a (opsA p0 l)) i = some (.peerFinish x) →
+      chunks p.ga.returned i = wroteOn x p.gb.wrote) := by
+  refine ⟨fun j h n o hh hj hx hro he hc => ?_, fun i h n o hh hi hx hro he hc => ?_⟩
+  · exact clean_eof_exact c oa ob l x j h n o hh hj hx hro he
+      (by rw [(run_b_ops _ l).2]; exact endCause_mem hc)
+  · exact clean_eof_exact_rev c oa ob l x i h n o hh hi hx hro he
+      (by rw [(run_a_ops _ l).2]; exact endCause_mem hc)
+
+/-- The weaker sibling that needs no read: if the end cause recorded for stream object `j` (carrying `x`,
+    receiver still open) is `peerFinish x`, the peer's application has shut its stream down: the peer has a
+    stream object carrying `x`, and every such object has its write side closed (`finishSent`: set by
+    `shutdown`, or by dropping / aborting the stream) — the `Finish` was not invented, and (with
+    `write_fails_after_local_shutdown`) no later write on `x` succeeds.  Also: the frames accepted into `j`
+    are exactly the payloads the peer's writes put on `x`. -/
+theorem pair_eof_after_peer_finish_means_peer_shut_down {ra rb : List Nat} (c : Cfg ra rb) (oa ob : Opts)
+    (l : List (PairAll.Side × Stim)) (x j : Nat) (o : Obj) :
+    let p0 := PairAll.init oa ob ra rb
+    let p := PairAll.run p0 l
+    p.b.objs[j]? = some o → o.fid = x → o.rxOpen = true →
+    endCause (endsOf p0.b (opsB p0 l)) j = some (.peerFinish x) →
+    (∃ (i : Nat) (oA : Obj), p.a.objs[i]? = some oA ∧ oA.fid = x) ∧
+    (∀ (i : Nat) (oA : Obj), p.a.objs[i]? = some oA → oA.fid = x → oA.finishSent = true) ∧
+    (Log.dataOf p.gb.accepted j).flatten = wroteOn x p.ga.wrote := by
+  intro p0 p hj hx hro hc
+  obtain ⟨h1, h2, h3⟩ := finish_processed c oa ob l x j o hj hx hro
+    (by rw [(run_b_ops _ l).2]; exact endCause_mem hc)
+  exact ⟨h2, h3, by rw [h1, wroteX_flatten]⟩
+
+/-! Non-vacuity (windows 2, threshold 1; scripts `[7, 8]`, `[9, 10]`; `a` opens flow 7, `b` accepts it). -/
+private def ecfg : Mux.Opts := { rwnd := 2, threshold := 1 }
+example : PairAll.Cfg [7, 8] [9, 10] := ⟨by decide, by decide, by decide⟩
+private def eopen : List (PairAll.Side × Stim) :=
+  [(.A, .call (.open 1 [104] 80)), (.B, .deliver), (.B, .call .accept), (.A, .deliver)]
+
+/-- Two writes, shutdown, all delivered, read to the end: the hypotheses of
+    `pair_clean_eof_is_exact_every_history` hold (next read: end-of-stream; receiver open; cause `peerFinish 7`)
+    and what was read is what was written. -/
+private def eClean : List (PairAll.Side × Stim) :=
+  eopen ++ [(.A, .call (.write 0 [1, 2])), (.A, .call (.write 0 [3])), (.A, .call (.shutdown 0)),
+            (.B, .deliver), (.B, .deliver), (.B, .deliver), (.B, .call (.read 0 9)), (.B, .call (.read 0 9))]
+example : let p0 := PairAll.init ecfg ecfg [7, 8] [9, 10]
+    let p := PairAll.run p0 eClean
+    (p.b.handles[0]? = some 0 ∧ p.b.objs.map (fun o => (o.fid, o.rxOpen)) = [(7, true)] ∧
+     (appRead p.b 0 9).2 = .eof ∧ endCause (endsOf p0.b (opsB p0 eClean)) 0 = some (.peerFinish 7) ∧
+     chunks p.gb.returned 0 = [1, 2, 3] ∧ wroteOn 7 p.ga.wrote = [1, 2, 3] ∧
+     p.a.objs.map (fun o => (o.fid, o.finishSent)) = [(7, true)]) := by decide
+
+/-- The wire is cut between the first `Push` and the rest (second `Push`, `Finish`): the reader gets
+    end-of-stream too, but the recorded cause is `connEnded`, not `peerFinish` — and what was read is a strict
+    prefix of what was written. -/
+private def eCut : List (PairAll.Side × Stim) :=
+  eopen ++ [(.A, .call (.write 0 [1, 2])), (.A, .call (.write 0 [3])), (.A, .call (.shutdown 0)),
+            (.B, .deliver), (.B, .cut false), (.B, .call (.read 0 9))]
+example : let p0 := PairAll.init ecfg ecfg [7, 8] [9, 10]
+    let p := PairAll.run p0 eCut
+    ((appRead p.b 0 9).2 = .eof ∧ endCause (endsOf p0.b (opsB p0 eCut)) 0 = some (.connEnded .wsError) ∧
+     chunks p.gb.returned 0 = [1, 2] ∧ wroteOn 7 p.ga.wrote = [1, 2, 3]) := by decide
+
+/-- … and cut between the last `Push` and the `Finish`: everything written happens to have been read, the cause
+    is still `connEnded` (the reader cannot know the writer was done). -/
+private def eCut2 : List (PairAll.Side × Stim) :=
+  eopen ++ [(.A, .call (.write 0 [1, 2])), (.A, .call (.write 0 [3])), (.A, .call (.shutdown 0)),
+            (.B, .deliver), (.B, .deliver), (.B, .cut false), (.B, .call (.read 0 9)), (.B, .call (.read 0 9))]
+example : let p0 := PairAll.init ecfg ecfg [7, 8] [9, 10]
+    let p := PairAll.run p0 eCut2
+    ((appRead p.b 0 9).2 = .eof ∧ endCause (endsOf p0.b (opsB p0 eCut2)) 0 = some (.connEnded .wsError) ∧
+     chunks p.gb.returned 0 = [1, 2, 3] ∧ wroteOn 7 p.ga.wrote = [1, 2, 3]) := by decide
+
+end PairAll
 
 end Penguin.C05
